@@ -4,8 +4,12 @@ comes from seeded/<id>/meta.json: "first_version" (written by hand after the fir
 import json, os, sys
 HERE = os.path.abspath(os.path.join(os.path.dirname(__file__), ".."))
 first = int(sys.argv[1]) if len(sys.argv) > 1 else 1
-for d in sorted(os.listdir(os.path.join(HERE, "seeded"))):
-    if not d.startswith("S") or int(d[1:3]) < first:
+import re as _re
+def _num(d):
+    m_ = _re.match(r"S(\d+)-", d)
+    return int(m_.group(1)) if m_ else -1
+for d in sorted(os.listdir(os.path.join(HERE, "seeded")), key=_num):
+    if _num(d) < first:
         continue
     m = json.load(open(os.path.join(HERE, "seeded", d, "meta.json")))
     conf = m.get("confirmed", {})
